@@ -100,6 +100,7 @@ fn base_inv(lang: &str, mode: Mode, config: String) -> Inv {
         roots: vec![],
         out_sub: String::new(),
         obstacle: 0,
+        wall_clock: 0,
     }
 }
 
@@ -195,6 +196,11 @@ pub fn gen_c06(r: &mut Rng, tier: Tier) -> Case {
                 inv.sched = random_sched(r);
             }
             3 => inv.hash_seed = r.next(),
+            6 => {
+                // another day, another wall-clock time
+                inv.wall_clock = 1_700_000_000 + r.below(400) as i64 * 86_400 + r.below(86_400) as i64;
+                inv.role = "clock".into();
+            }
             5 if roots.is_empty()
                 && !world.noise
                 && world.crates.len() > 1
@@ -250,6 +256,9 @@ fn c06_class(reference: &Inv, inv: &Inv) -> (String, Vec<&'static str>) {
     }
     if inv.roots != reference.roots {
         dims.push("ROOTS");
+    }
+    if inv.wall_clock != reference.wall_clock {
+        dims.push("CLOCK");
     }
     if inv.hash_seed != reference.hash_seed {
         dims.push("HASHSEED");
@@ -481,7 +490,8 @@ pub fn gen_c07(r: &mut Rng, tier: Tier) -> Case {
         if r.chance(1, 10) {
             inv.extra = vec!["--target-os".into(), "linux".into()];
         }
-        if r.chance(1, 12) {
+        let has_loop = tree.iter().any(|f| f.kind == FileKind::SymlinkLoop || f.kind == FileKind::SymlinkToFile);
+        if r.chance(1, 12) || (has_loop && r.chance(1, 2)) {
             inv.extra.push("--follow-links".into());
         }
         if r.chance(1, 30) {
@@ -518,7 +528,14 @@ pub fn gen_c07(r: &mut Rng, tier: Tier) -> Case {
                     let dir = Path::new(&f.path).parent().map(|p| p.to_string_lossy().into_owned()).unwrap_or_default();
                     Fault::Readdir { path: if dir.is_empty() { "ws".into() } else { format!("ws/{dir}") }, kind: r.pick(&[IoKind::Eacces, IoKind::Eio]).clone() }
                 }
-                6 | 7 => Fault::Write { nth: r.below(3) as u32, kind: r.pick(&[IoKind::Enospc, IoKind::Eio, IoKind::Eacces]).clone() },
+                6 => Fault::Write { nth: r.below(3) as u32, kind: r.pick(&[IoKind::Enospc, IoKind::Eio, IoKind::Eacces]).clone() },
+                7 => {
+                    if r.chance(1, 2) {
+                        Fault::OutRead { nth: r.below(3) as u32, kind: r.pick(&[IoKind::Eacces, IoKind::Eio]).clone() }
+                    } else {
+                        Fault::Write { nth: r.below(3) as u32, kind: r.pick(&[IoKind::Enospc, IoKind::Eio, IoKind::Eacces]).clone() }
+                    }
+                }
                 8 => Fault::ShortWrite { nth: r.below(3) as u32, keep_permille: r.below(1000) as u32, kind: r.pick(&[IoKind::Enospc, IoKind::Eio]).clone() },
                 _ => Fault::Crash { at: r.below(6) as u32, keep_permille: r.below(1000) as u32 },
             };
@@ -1028,7 +1045,8 @@ pub fn gen_c17(r: &mut Rng, tier: Tier) -> Case {
         inv.sched = random_sched(r);
         inv.hash_seed = r.next();
         if fault_case && r.chance(2, 3) {
-            let f = match r.below(4) {
+            let f = match r.below(5) {
+                4 => Fault::OutRead { nth: r.below(4) as u32, kind: r.pick(&[IoKind::Eacces, IoKind::Eio]).clone() },
                 0 => Fault::Write { nth: r.below(4) as u32, kind: r.pick(&[IoKind::Enospc, IoKind::Eio, IoKind::Eacces]).clone() },
                 1 => Fault::ShortWrite { nth: r.below(4) as u32, keep_permille: r.below(1000) as u32, kind: IoKind::Enospc },
                 _ => Fault::Crash { at: r.below(8) as u32, keep_permille: r.below(1000) as u32 },
@@ -1040,6 +1058,27 @@ pub fn gen_c17(r: &mut Rng, tier: Tier) -> Case {
     }
     if fault_case {
         notes.push("fault_case".into());
+    }
+    // the wall clock moves between runs: seconds, days, and now and then backwards
+    let mut now: i64 = 1_700_000_000 + r.below(1000) as i64 * 3600;
+    for o in ops.iter_mut() {
+        now += match r.below(10) {
+            0..=4 => r.range(1, 120) as i64,
+            5..=7 => r.range(1, 400) as i64 * 86_400,
+            8 => -(r.range(1, 48) as i64) * 3600,
+            _ => 0,
+        };
+        o.wall_clock = now;
+    }
+    // somebody edits or deletes generated files by hand between two runs
+    if r.chance(1, 5) && ops.len() >= 2 {
+        let at = r.range(1, ops.len() as u64 - 1) as usize;
+        let what = *r.pick(&["tamper:delete", "tamper:garble", "tamper:truncate", "tamper:delete_all", "tamper:append"]);
+        let mut t = ops[at].clone();
+        t.role = format!("{what}:{}", r.below(8));
+        t.faults.clear();
+        ops.insert(at, t);
+        notes.push("tamper".into());
     }
     // the configuration is an input, too: some histories change it between runs
     if r.chance(1, 5) {
@@ -1087,13 +1126,80 @@ fn eval_c17(case: &Case, sc: &mut Scratch, res: &mut EvalResult) {
     sc.clear_dir(&out);
     apply_preseed(case, &out);
     let mut after_fault = false;
+    // inputs of the last successful, undisturbed run (for the plain idempotence clause)
+    let mut last_clean: Option<String> = None;
     for (idx, inv) in case.ops.iter().enumerate() {
         let tree = &case.versions[inv.version.min(case.versions.len() - 1)];
+        if let Some(t) = inv.role.strip_prefix("tamper:") {
+            // somebody edits the generated files by hand
+            let before = super::exec::snapshot(&out);
+            let files: Vec<&String> = before.keys().filter(|k| !k.ends_with('/')).collect();
+            let mut parts = t.split(':');
+            let what = parts.next().unwrap_or("");
+            let n: usize = parts.next().and_then(|x| x.parse().ok()).unwrap_or(0);
+            if what == "delete_all" {
+                sc.clear_dir(&out);
+            } else if !files.is_empty() {
+                let p = out.join(files[n % files.len()]);
+                match what {
+                    "delete" => {
+                        let _ = std::fs::remove_file(&p);
+                    }
+                    "garble" => {
+                        let _ = std::fs::write(&p, b"edited by hand\n");
+                    }
+                    "truncate" => {
+                        let b = std::fs::read(&p).unwrap_or_default();
+                        let _ = std::fs::write(&p, &b[..b.len() / 2]);
+                    }
+                    _ => {
+                        let mut b = std::fs::read(&p).unwrap_or_default();
+                        b.extend_from_slice(b"// local edit\n");
+                        let _ = std::fs::write(&p, b);
+                    }
+                }
+            }
+            *res.stats.fired.entry(format!("manual_edit:{what}")).or_insert(0) += 1;
+            last_clean = None;
+            res.outcomes.push(Outcome::placeholder(before, super::exec::snapshot(&out)));
+            continue;
+        }
         super::exec::age_files(&out);
         let o = run_invocation(sc, tree, inv, &out);
         res.stats.record(tree_digest(tree), tree.len(), inv, &o, case.ops.len(), false);
         let ctxs = format!("{}/{:?}", inv.lang, inv.mode);
         let fault_fired = o.oplog.iter().any(|op| op.fault.is_some());
+        let inputs_key = format!("{:016x}|{}|{:?}|{}|{:?}|{:?}|{}", tree_digest(tree), inv.lang, inv.mode, inv.config, inv.extra, inv.roots, inv.out_sub);
+        let identical_rerun = last_clean.as_deref() == Some(inputs_key.as_str());
+        if o.class == ResultClass::Ok && !fault_fired {
+            last_clean = Some(inputs_key);
+        } else {
+            last_clean = None;
+        }
+        if o.class == ResultClass::Ok && !fault_fired && identical_rerun {
+            // "running again with unchanged sources leaves every output file byte-identical and
+            // untouched" - whatever the time of day, the schedule or the hash seed
+            for (k, b) in o.before.iter().filter(|(k, _)| !k.ends_with('/')) {
+                res.stats.check("c17_identical_rerun");
+                let touched = match o.after.get(k) {
+                    None => Some("was removed".to_string()),
+                    Some(a) if a.bytes != b.bytes => Some("changed content".to_string()),
+                    Some(a) if a.ino != b.ino || a.mtime_ns != b.mtime_ns => Some("was rewritten".to_string()),
+                    _ => None,
+                };
+                // files that merely were rewritten with the same bytes are reported by the
+                // `untouched` clause below (known-finding signatures live there)
+                if let Some(what) = touched.filter(|w| w != "was rewritten") {
+                    res.violations.push(Violation {
+                        property: "C17".into(),
+                        class: "CHANGED_ON_IDENTICAL_RERUN".into(),
+                        detail: format!("{ctxs}|{}", file_kind(k)),
+                        message: format!("run #{idx} repeats the previous run's inputs exactly, yet {k} {what}"),
+                        op_index: idx,
+                    });
+                }
+            }
+        }
         if o.class == ResultClass::Ok && !fault_fired {
             let r = reference_run(sc, tree, inv, &mut res.stats);
             if r.class == ResultClass::Ok {
